@@ -295,3 +295,19 @@ pub fn try_extract_signature_id_from_field(
         _ => None,
     }
 }
+
+/// Entry counts of every map of this index (verification hook, add-only, off by default).
+#[cfg(feature = "verif")]
+impl LuaPropertyIndex {
+    pub fn verif_sizes(&self) -> Vec<(String, usize)> {
+        let p = "property";
+        let mut v: Vec<(String, usize)> = Vec::new();
+        let mut put = |name: &str, n: usize| v.push((format!("{p}.{name}"), n));
+        put("properties", self.properties.len());
+        put("property_owners_map", self.property_owners_map.len());
+        put("in_filed_owner", self.in_filed_owner.len());
+        put("in_filed_owner.items", self.in_filed_owner.values().map(|s| s.len()).sum());
+
+        v
+    }
+}
